@@ -70,11 +70,12 @@ def check(ctx):
     header, blocks = _blocks(txt)
     ok, out = V.coq_build(ctx, [TIE[:-2] + ".vo"], timeout=900)
     res["built"] = ok
-    side = os.path.join(V.COQ, "Tie", ".Tie_Leaf.assumptions")
+    side = os.path.join(V.BUILD, "Tie_Leaf.assumptions")     # Print Assumptions output of the compilation that made the .vo
+    vo = os.path.join(V.COQ, TIE[:-2] + ".vo")
     if ok:
         if "Closed under the global context" in out or "Axioms:" in out:
             open(side, "w").write(out)           # it was (re)compiled now: keep the Print Assumptions output
-        elif os.path.exists(side) and os.path.getmtime(side) >= os.path.getmtime(src):
+        elif os.path.exists(side) and os.path.exists(vo) and os.path.getmtime(side) >= os.path.getmtime(vo):
             out = open(side).read()              # up to date: the output of the compilation that produced the .vo
         else:
             rc, out = V.sh(["coqc", "-Q", ".", "Draco", TIE], cwd=V.COQ, timeout=900)
